@@ -809,3 +809,645 @@ Section MacroP.
     rewrite negb_true_iff, mem_false. tauto.
   Qed.
 End MacroP.
+
+(* ================================================================== names seen by formulas *)
+Section NamespaceP.
+  Variable V : Type.
+  Notation scopes := (scopes V).
+  Implicit Types (s : scopes) (n : string).
+
+  Definition pick (a b : option V) : option V := match a with Some x => Some x | None => b end.
+
+  (* ${{n}}: the closest scope that defines n wins
+     (functions > variables > plugins > row fields > object names > options > built-in names) *)
+  Theorem resolve_spec n s :
+    resolve n s =
+    pick (last_lookup n (sc_funcs s)) (pick (last_lookup n (sc_vars s))
+    (pick (last_lookup n (sc_plugins s)) (pick (last_lookup n (sc_fields s))
+    (pick (last_lookup n (sc_objects s)) (pick (last_lookup n (sc_options s))
+    (last_lookup n (sc_builtins s))))))).
+  Proof.
+    unfold resolve, field_vars, merge_dicts, layers. cbn [fold_left].
+    rewrite !update_lookup. cbn [lookup]. unfold pick.
+    destruct (last_lookup n (sc_builtins s)); reflexivity.
+  Qed.
+
+  Theorem resolve_not_closer n s :
+    ~ closer_defines n s ->
+    resolve n s = pick (last_lookup n (sc_options s)) (last_lookup n (sc_builtins s)).
+  Proof.
+    intros H. rewrite resolve_spec. unfold closer_defines in H.
+    destruct (last_lookup n (sc_funcs s)); [exfalso; apply H; do 4 right; discriminate|].
+    destruct (last_lookup n (sc_vars s)); [exfalso; apply H; do 3 right; left; discriminate|].
+    destruct (last_lookup n (sc_plugins s)); [exfalso; apply H; do 2 right; left; discriminate|].
+    destruct (last_lookup n (sc_fields s)); [exfalso; apply H; right; left; discriminate|].
+    destruct (last_lookup n (sc_objects s)); [exfalso; apply H; left; discriminate|].
+    reflexivity.
+  Qed.
+
+  (* a defined option hides the built-in name of the same spelling, whatever its value *)
+  Theorem resolve_option_over_builtin n s v :
+    ~ closer_defines n s -> last_lookup n (sc_options s) = Some v -> resolve n s = Some v.
+  Proof. intros H E. rewrite (resolve_not_closer H), E. reflexivity. Qed.
+
+  Lemma closer_with_options n s o : closer_defines n (with_options s o) <-> closer_defines n s.
+  Proof. unfold closer_defines, with_options. cbn. tauto. Qed.
+
+  Lemma merge_loop_NoDup (decls : list (optdecl V)) user o0 o :
+    NoDup (names o0) -> merge_loop decls user o0 = Ok o -> NoDup (names o).
+  Proof.
+    revert o0. induction decls as [|d r IH]; intros o0 Hd; cbn [merge_loop].
+    - intros H. injection H as <-. assumption.
+    - destruct (lookup (o_name d) user) as [v|].
+      + apply IH, set_NoDup, Hd.
+      + destruct (o_default d) as [v|]; [|discriminate]. apply IH, set_NoDup, Hd.
+  Qed.
+
+  (* the options of a run, as ${{name}} sees them *)
+  Theorem option_seen (decls : list (optdecl V)) user plugin o extra n d s :
+    merge_options decls user plugin = Ok (o, extra) -> NoDup (names plugin) ->
+    last_decl n decls = Some d -> ~ closer_defines n s ->
+    resolve n (with_options s o) =
+    match lookup n user with Some v => Some v | None => o_default d end /\
+    resolve n (with_options s o) <> None.
+  Proof.
+    intros H Hp Hd Hc.
+    assert (NoDup (names o)) as No.
+    { unfold merge_options in H.
+      destruct (merge_loop decls user plugin) as [o'|e] eqn:E; cbn [bind] in H; [|discriminate].
+      injection H as <- _. eapply merge_loop_NoDup; eassumption. }
+    pose proof (option_value _ _ _ _ H Hd) as Hv.
+    assert (lookup n o <> None) as Some_o.
+    { rewrite Hv. destruct (lookup n user) as [v|] eqn:Eu; [discriminate|].
+      destruct (o_default d) eqn:Ed; [discriminate|].
+      (* neither user value nor default: the merge would have failed *)
+      exfalso. destruct (last_decl_In _ _ Hd) as [Hin Hname].
+      assert (exists e, merge_options decls user plugin = Err e) as [e C].
+      { apply option_error_iff. exists d. rewrite Hname. auto. }
+      rewrite C in H. discriminate H. }
+    assert (resolve n (with_options s o) = lookup n o) as R.
+    { rewrite resolve_not_closer by (rewrite closer_with_options; assumption).
+      cbn [with_options sc_options sc_builtins]. rewrite (last_lookup_NoDup _ _ No).
+      unfold pick. destruct (lookup n o); [reflexivity|congruence]. }
+    rewrite R. split; [assumption|assumption].
+  Qed.
+End NamespaceP.
+
+(* ================================================================== include files on disk *)
+Lemma path_eqb_eq (a b : path) : path_eqb a b = true <-> a = b.
+Proof.
+  unfold path_eqb. revert b. induction a as [|x a IH]; intros [|y b]; cbn [list_eqb];
+    try (split; [discriminate|discriminate]); [tauto|].
+  rewrite andb_true_iff, String.eqb_eq, IH. split; [intros [-> ->]; reflexivity|].
+  intros H. injection H as -> ->. auto.
+Qed.
+
+Lemma path_eqb_refl (a : path) : path_eqb a a = true.
+Proof. apply path_eqb_eq. reflexivity. Qed.
+
+Lemma path_eqb_neq (a b : path) : path_eqb a b = false <-> a <> b.
+Proof.
+  split.
+  - intros H E. apply path_eqb_eq in E. congruence.
+  - intros H. destruct (path_eqb a b) eqn:E; [|reflexivity]. apply path_eqb_eq in E. contradiction.
+Qed.
+
+Lemma mem_path_In (p : path) l : mem_path p l = true <-> In p l.
+Proof.
+  unfold mem_path. rewrite existsb_exists. split.
+  - intros [x [Hx E]]. apply path_eqb_eq in E. subst. assumption.
+  - intros H. exists p. split; [assumption|apply path_eqb_refl].
+Qed.
+
+Lemma mem_path_false (p : path) l : mem_path p l = false <-> ~ In p l.
+Proof.
+  rewrite <- mem_path_In. destruct (mem_path p l); split; intros; try congruence; tauto.
+Qed.
+
+Section FsP.
+  Variables P F V : Type.
+  Notation fsys := (fsys P F V).
+  Notation fsfile := (fsfile P F V).
+  Notation flat3 := (flat3 P F V).
+  Notation file := (file P F V).
+  Implicit Types (fs : fsys) (p q : path) (stack : list path).
+
+  Lemma fs_lookup_In p fs f : fs_lookup p fs = Some f -> In p (fs_paths fs).
+  Proof.
+    induction fs as [|[q g] r IH]; cbn [fs_lookup fs_paths map fst In]; [discriminate|].
+    destruct (path_eqb q p) eqn:E.
+    - apply path_eqb_eq in E. auto.
+    - intros H. right. apply IH. assumption.
+  Qed.
+
+  (* ---- fs_incs *)
+  (* what the loop over the include_file lines of file p guarantees about each line *)
+  Definition inc_ok fs p stack (rel : list string) q : Prop :=
+    resolve_include fs p rel = WPath q /\ fs_lookup q fs <> None /\ q <> p /\ ~ In q stack.
+
+  Lemma fs_incs_ok {A} fs p stack (rec : path -> result A) l parts :
+    fs_incs fs p stack rec l = Ok parts ->
+    forall rel, In rel l -> exists q a, inc_ok fs p stack rel q /\ rec q = Ok a.
+  Proof.
+    revert parts. induction l as [|rel0 r IH]; intros parts; cbn [fs_incs In]; [tauto|].
+    destruct (resolve_include fs p rel0) as [q| |] eqn:W; try discriminate.
+    destruct (fs_lookup q fs) as [g|] eqn:L; [|discriminate].
+    destruct (path_eqb q p) eqn:E1; [discriminate|].
+    destruct (mem_path q stack) eqn:E2; [discriminate|]. cbn [orb].
+    destruct (rec q) as [a|e] eqn:R; cbn [bind]; [|discriminate].
+    destruct (fs_incs fs p stack rec r) as [rest|e] eqn:Rest; cbn [bind]; [|discriminate].
+    intros _ rel [<-|Hin].
+    - exists q, a. split; [|assumption]. unfold inc_ok. rewrite L.
+      apply path_eqb_neq in E1. apply mem_path_false in E2. splits; auto; discriminate.
+    - eapply IH; [reflexivity|assumption].
+  Qed.
+
+  Lemma fs_incs_err {A} fs p stack (rec : path -> result A) l e :
+    fs_incs fs p stack rec l = Err e ->
+    e = Unsupported \/ (exists k, e = DGE k) \/
+    exists rel q, In rel l /\ inc_ok fs p stack rel q /\ rec q = Err e.
+  Proof.
+    induction l as [|rel0 r IH]; cbn [fs_incs In]; [discriminate|].
+    destruct (resolve_include fs p rel0) as [q| |] eqn:W;
+      [|intros H; injection H as <-; eauto|intros H; injection H as <-; eauto].
+    destruct (fs_lookup q fs) as [g|] eqn:L; [|intros H; injection H as <-; eauto].
+    destruct (path_eqb q p) eqn:E1; [intros H; injection H as <-; eauto|].
+    destruct (mem_path q stack) eqn:E2; [intros H; injection H as <-; eauto|]. cbn [orb].
+    assert (inc_ok fs p stack rel0 q) as OK.
+    { unfold inc_ok. rewrite L. apply path_eqb_neq in E1. apply mem_path_false in E2.
+      splits; auto; discriminate. }
+    destruct (rec q) as [a|e1] eqn:R; cbn [bind].
+    - destruct (fs_incs fs p stack rec r) as [rest|e2] eqn:Rest; cbn [bind]; [discriminate|].
+      intros H. injection H as ->. destruct (IH eq_refl) as [?|[?|[rel [q' [Hin H']]]]]; auto.
+      right. right. exists rel, q'. auto.
+    - intros H. injection H as ->. right. right. exists rel0, q. auto.
+  Qed.
+
+  Lemma fs_incs_agree {A} fs p stack (f g : path -> result A) l :
+    fs_incs fs p stack f l <> Err OutOfFuel ->
+    (forall rel q, In rel l -> inc_ok fs p stack rel q -> f q <> Err OutOfFuel -> g q = f q) ->
+    fs_incs fs p stack g l = fs_incs fs p stack f l.
+  Proof.
+    induction l as [|rel0 r IH]; cbn [fs_incs In]; [reflexivity|]. intros H Hfg.
+    destruct (resolve_include fs p rel0) as [q| |] eqn:W; try reflexivity.
+    destruct (fs_lookup q fs) as [x|] eqn:L; [|reflexivity].
+    destruct (path_eqb q p) eqn:E1; [reflexivity|].
+    destruct (mem_path q stack) eqn:E2; [reflexivity|]. cbn [orb] in *.
+    assert (inc_ok fs p stack rel0 q) as OK.
+    { unfold inc_ok. rewrite L. apply path_eqb_neq in E1. apply mem_path_false in E2.
+      splits; auto; discriminate. }
+    destruct (f q) as [a|e1] eqn:R; cbn [bind] in *.
+    - rewrite (Hfg rel0 q (or_introl eq_refl) OK) by (rewrite R; discriminate). rewrite R. cbn [bind].
+      rewrite IH; [reflexivity| |].
+      + intros C. rewrite C in H. cbn [bind] in H. congruence.
+      + intros rel q' Hin. apply Hfg. auto.
+    - rewrite (Hfg rel0 q (or_introl eq_refl) OK) by (rewrite R; intros C; apply H; injection C as ->; reflexivity). rewrite R. reflexivity.
+  Qed.
+
+  (* ---- fuel: S (number of files) is enough, the nesting depth is bounded by the stack check *)
+  Lemma fs_fuel_ok fs fuel stack p :
+    NoDup stack -> incl stack (fs_paths fs) -> ~ In p stack ->
+    length fs < fuel + length stack ->
+    fs_flatten fuel fs stack p <> Err OutOfFuel.
+  Proof.
+    revert stack p. induction fuel as [|k IH]; intros stack p Hd Hi Hp Hl.
+    - exfalso. pose proof (NoDup_incl_length Hd Hi) as L. unfold fs_paths in L.
+      rewrite map_length in L. cbn in Hl. lia.
+    - cbn [fs_flatten]. destruct (fs_lookup p fs) as [[incs opts macs stmts]|] eqn:Lp; [|discriminate].
+      destruct (fs_incs fs p stack (fs_flatten k fs (stack ++ [p])) incs) as [parts|e] eqn:E;
+        cbn [bind].
+      + destruct (concat3 parts) as [[s o] m]. discriminate.
+      + intros C. injection C as ->. apply fs_incs_err in E.
+        destruct E as [E|[[x E]|[rel [q [_ [[_ [_ [Hqp Hqs]]] E]]]]]]; try discriminate.
+        revert E. apply IH.
+        * apply NoDup_app_intro; [assumption|repeat constructor; cbn; tauto|].
+          intros x Hx [<-|[]]. contradiction.
+        * intros x Hx. apply in_app_or in Hx. destruct Hx as [Hx|[<-|[]]]; [auto|].
+          eapply fs_lookup_In, Lp.
+        * intros Hx. apply in_app_or in Hx. destruct Hx as [Hx|[Hx|[]]]; [contradiction|].
+          congruence.
+        * rewrite app_length. cbn [length]. lia.
+  Qed.
+
+  Lemma fs_fuel_mono fs fuel fuel' stack p :
+    fuel <= fuel' -> fs_flatten fuel fs stack p <> Err OutOfFuel ->
+    fs_flatten fuel' fs stack p = fs_flatten fuel fs stack p.
+  Proof.
+    revert fuel' stack p. induction fuel as [|k IH]; intros fuel' stack p Hle H.
+    - cbn in H. congruence.
+    - destruct fuel' as [|k']; [lia|]. cbn [fs_flatten] in *.
+      destruct (fs_lookup p fs) as [[incs opts macs stmts]|]; [|reflexivity].
+      rewrite (@fs_incs_agree _ fs p stack (fs_flatten k fs (stack ++ [p]))
+                              (fs_flatten k' fs (stack ++ [p]))).
+      + reflexivity.
+      + intros C. rewrite C in H. apply H. reflexivity.
+      + intros rel q _ _ Hn. apply IH; [lia|assumption].
+  Qed.
+
+  Theorem fs_fuel_enough fs fuel p :
+    fs_fuel fs <= fuel ->
+    fs_flatten fuel fs [] p = fs_flatten (fs_fuel fs) fs [] p /\
+    fs_flatten (fs_fuel fs) fs [] p <> Err OutOfFuel.
+  Proof.
+    intros H.
+    assert (fs_flatten (fs_fuel fs) fs [] p <> Err OutOfFuel) as N.
+    { apply fs_fuel_ok; [constructor|intros x []|intros []|unfold fs_fuel; cbn; lia]. }
+    split; [apply fs_fuel_mono; assumption|assumption].
+  Qed.
+
+  (* ---- error kinds *)
+  Lemma fs_flatten_err_kind fs fuel stack p e :
+    fs_flatten fuel fs stack p = Err e ->
+    e = OutOfFuel \/ e = Unsupported \/ exists k, e = DGE k.
+  Proof.
+    revert stack p. induction fuel as [|k IH]; intros stack p; cbn [fs_flatten].
+    - intros H. injection H as <-. auto.
+    - destruct (fs_lookup p fs) as [[incs opts macs stmts]|]; [|intros H; injection H as <-; eauto].
+      destruct (fs_incs fs p stack (fs_flatten k fs (stack ++ [p])) incs) as [parts|e1] eqn:E;
+        cbn [bind].
+      + destruct (concat3 parts) as [[s o] m]. discriminate.
+      + intros H. injection H as ->. apply fs_incs_err in E.
+        destruct E as [E|[E|[rel [q [_ [_ E]]]]]]; auto. eapply IH, E.
+  Qed.
+
+  Lemma parse_stmts_err (m : menv P F) (s : list (stmt P F)) e :
+    parse_stmts m s = Err e -> exists k, e = DGE k.
+  Proof.
+    induction s as [|st r IH]; cbn [parse_stmts]; [discriminate|].
+    destruct (parse_stmt m st) as [x|e3] eqn:E3; cbn [bind].
+    - destruct (parse_stmts m r) as [y|e4]; cbn [bind]; [discriminate|].
+      intros H. injection H as ->. apply IH. reflexivity.
+    - intros H. injection H as ->. eapply parse_stmt_err, E3.
+  Qed.
+
+  (* parse_recipe on a file system ends, and fails only with a recipe error (or because an
+     include_file path leaves the modelled directory) *)
+  Theorem fs_parse_recipe_err fs main e :
+    fs_parse_recipe fs main = Err e -> e = Unsupported \/ exists k, e = DGE k.
+  Proof.
+    unfold fs_parse_recipe.
+    destruct (fs_flatten (fs_fuel fs) fs [] main) as [[[s o] m]|e1] eqn:E; cbn [bind].
+    - destruct (parse_stmts m s) as [ps|e2] eqn:E2; cbn [bind]; [discriminate|].
+      intros H. injection H as ->. right. eapply parse_stmts_err, E2.
+    - intros H. injection H as ->.
+      destruct (fs_flatten_err_kind _ _ _ _ E) as [->|[->|K]]; auto.
+      exfalso. destruct (@fs_fuel_enough fs (fs_fuel fs) main (le_n _)) as [_ N]. exact (N E).
+  Qed.
+
+  (* ---- refinement: following the include_file lines on disk = flattening the tree they unfold to *)
+  Lemma concat3_incs (gs : list file) parts :
+    Forall2 (fun g part => flatten g = Ok part) gs parts ->
+    flatten_incs (map Some gs) = Ok (concat3 parts).
+  Proof.
+    induction 1 as [|g part gs parts Hg _ IH]; cbn [map flatten_incs concat3]; [reflexivity|].
+    rewrite Hg. destruct part as [[s1 o1] m1]. cbn [bind]. rewrite IH.
+    destruct (concat3 parts) as [[s2 o2] m2]. reflexivity.
+  Qed.
+
+  Definition refines (t : result file) (fl : result flat3) : Prop :=
+    match t with
+    | Ok g => exists part, flatten g = Ok part /\ fl = Ok part
+    | Err e => fl = Err e
+    end.
+
+  Lemma fs_incs_refines fs p stack (t : path -> result file) (fl : path -> result flat3) l :
+    (forall q, refines (t q) (fl q)) ->
+    match fs_incs fs p stack t l with
+    | Ok gs => exists parts, fs_incs fs p stack fl l = Ok parts /\
+                             Forall2 (fun g part => flatten g = Ok part) gs parts
+    | Err e => fs_incs fs p stack fl l = Err e
+    end.
+  Proof.
+    intros H. induction l as [|rel0 r IH]; cbn [fs_incs].
+    - exists []. split; [reflexivity|constructor].
+    - destruct (resolve_include fs p rel0) as [q| |]; try reflexivity.
+      destruct (fs_lookup q fs); [|reflexivity].
+      destruct (path_eqb q p || mem_path q stack); [reflexivity|].
+      specialize (H q). unfold refines in H.
+      destruct (t q) as [g|e]; cbn [bind].
+      + destruct H as [part [Hg ->]]. cbn [bind].
+        destruct (fs_incs fs p stack t r) as [gs|e]; cbn [bind].
+        * destruct IH as [parts [-> Hf]]. cbn [bind]. exists (part :: parts).
+          split; [reflexivity|constructor; assumption].
+        * rewrite IH. reflexivity.
+      + rewrite H. reflexivity.
+  Qed.
+
+  Lemma fs_tree_refines fs fuel stack p :
+    refines (fs_tree fuel fs stack p) (fs_flatten fuel fs stack p).
+  Proof.
+    revert stack p. induction fuel as [|k IH]; intros stack p; cbn [fs_tree fs_flatten refines].
+    - reflexivity.
+    - destruct (fs_lookup p fs) as [[incs opts macs stmts]|]; [|reflexivity].
+      pose proof (fs_incs_refines fs p stack (fs_tree k fs (stack ++ [p]))
+                                  (fs_flatten k fs (stack ++ [p])) incs
+                                  (fun q => IH (stack ++ [p]) q)) as R.
+      destruct (fs_incs fs p stack (fs_tree k fs (stack ++ [p])) incs) as [gs|e]; cbn [bind].
+      + destruct R as [parts [-> Hf]]. cbn [bind].
+        unfold refines. rewrite flatten_unfold, (concat3_incs Hf).
+        destruct (concat3 parts) as [[s o] m]. cbn [bind]. eexists. split; reflexivity.
+      + rewrite R. reflexivity.
+  Qed.
+
+  Theorem fs_flatten_tree fs fuel stack p :
+    fs_flatten fuel fs stack p = (do g <- fs_tree fuel fs stack p; flatten g).
+  Proof.
+    pose proof (fs_tree_refines fs fuel stack p) as R. unfold refines in R.
+    destruct (fs_tree fuel fs stack p) as [g|e]; cbn [bind].
+    - destruct R as [part [-> ->]]. reflexivity.
+    - assumption.
+  Qed.
+
+  (* the recipe on disk parses like the tree of files it unfolds to *)
+  Theorem fs_parse_recipe_tree fs main g :
+    fs_tree (fs_fuel fs) fs [] main = Ok g ->
+    fs_parse_recipe fs main = parse_recipe g.
+  Proof.
+    intros H. unfold fs_parse_recipe, parse_recipe. rewrite fs_flatten_tree, H. reflexivity.
+  Qed.
+
+  (* ---- cycles *)
+  (* file a has an include_file line that points to file b *)
+  Definition fs_includes fs (a b : path) : Prop :=
+    exists incs opts macs stmts rel,
+      fs_lookup a fs = Some (FsFile incs opts macs stmts) /\ In rel incs /\
+      resolve_include fs a rel = WPath b.
+
+  Inductive fchain fs : nat -> path -> Prop :=
+  | fchain_O a : fchain fs O a
+  | fchain_S n a b : fs_includes fs a b -> fchain fs n b -> fchain fs (S n) a.
+
+  Lemma fs_ok_no_chain fs fuel stack a r :
+    fs_flatten fuel fs stack a = Ok r -> ~ fchain fs fuel a.
+  Proof.
+    revert stack a r. induction fuel as [|k IH]; intros stack a r; cbn [fs_flatten].
+    - discriminate.
+    - destruct (fs_lookup a fs) as [[incs opts macs stmts]|] eqn:La; [|discriminate].
+      destruct (fs_incs fs a stack (fs_flatten k fs (stack ++ [a])) incs) as [parts|e] eqn:E;
+        [|discriminate].
+      intros _ C. inversion C as [|n a' b [incs' [o' [m' [s' [rel [La' [Hin W]]]]]]] Hc]; subst.
+      rewrite La in La'. injection La' as <- <- <- <-.
+      destruct (fs_incs_ok _ _ _ _ _ E rel Hin) as [q [x [[W' _] Hx]]].
+      rewrite W in W'. injection W' as <-. eapply IH; eassumption.
+  Qed.
+
+  Lemma fs_cycle_chain fs a :
+    clos_trans _ (fs_includes fs) a a ->
+    forall n x, clos_refl_trans _ (fs_includes fs) x a -> fchain fs n x.
+  Proof.
+    intros Hc.
+    assert (exists b, fs_includes fs a b /\ clos_refl_trans _ (fs_includes fs) b a) as [b [Hab Hba]].
+    { apply clos_trans_t1n in Hc. inversion Hc as [y H|y z H H2]; subst.
+      - exists a. split; [assumption|apply rt_refl].
+      - exists y. split; [assumption|]. apply clos_t1n_trans in H2.
+        clear - H2. induction H2; [apply rt_step; assumption|eapply rt_trans; eassumption]. }
+    induction n as [|n IH]; intros x Hx; [constructor|].
+    apply clos_rt_rt1n in Hx. inversion Hx as [|y z Hxy Hya]; subst.
+    - econstructor; [exact Hab|]. apply IH. assumption.
+    - econstructor; [exact Hxy|]. apply IH. apply clos_rt1n_rt. assumption.
+  Qed.
+
+  (* a recipe from which a file that (transitively) includes itself can be reached is rejected *)
+  Theorem fs_cycle_rejected fs main a :
+    clos_refl_trans _ (fs_includes fs) main a -> clos_trans _ (fs_includes fs) a a ->
+    exists e, fs_parse_recipe fs main = Err e /\ (e = Unsupported \/ exists k, e = DGE k).
+  Proof.
+    intros Hr Hc.
+    destruct (fs_parse_recipe fs main) as [r|e] eqn:E.
+    - exfalso. unfold fs_parse_recipe in E.
+      destruct (fs_flatten (fs_fuel fs) fs [] main) as [x|e1] eqn:E1; cbn [bind] in E; [|discriminate].
+      apply (fs_ok_no_chain _ E1). apply (fs_cycle_chain Hc). assumption.
+    - exists e. split; [reflexivity|]. eapply fs_parse_recipe_err, E.
+  Qed.
+  (* ---- the result depends on the relative layout only: moving the whole tree of files into
+     another directory changes nothing ("the same include_file path, read from a different
+     directory, names a different file") *)
+  Lemma path_eqb_app (pre a b : path) : path_eqb (pre ++ a) (pre ++ b) = path_eqb a b.
+  Proof.
+    unfold path_eqb. induction pre as [|x pre IH]; cbn [app list_eqb]; [reflexivity|].
+    rewrite String.eqb_refl. exact IH.
+  Qed.
+
+  Lemma proper_prefix_app (pre d q : path) :
+    proper_prefix (pre ++ d) (pre ++ q) = proper_prefix d q.
+  Proof.
+    induction pre as [|x pre IH]; cbn [app proper_prefix]; [reflexivity|].
+    rewrite String.eqb_refl. exact IH.
+  Qed.
+
+  Lemma fs_lookup_relocate pre fs p : fs_lookup (pre ++ p) (relocate pre fs) = fs_lookup p fs.
+  Proof.
+    induction fs as [|[q g] r IH]; cbn [relocate map fs_lookup fst snd]; [reflexivity|].
+    rewrite path_eqb_app. destruct (path_eqb q p); [reflexivity|]. exact IH.
+  Qed.
+
+  Lemma is_dir_relocate pre fs d : is_dir (relocate pre fs) (pre ++ d) = is_dir fs d.
+  Proof.
+    unfold is_dir, relocate. induction fs as [|[q g] r IH]; cbn [map existsb fst snd]; [reflexivity|].
+    rewrite proper_prefix_app, IH. reflexivity.
+  Qed.
+
+  Lemma mem_path_relocate pre q stack :
+    mem_path (pre ++ q) (map (app pre) stack) = mem_path q stack.
+  Proof.
+    unfold mem_path. induction stack as [|x r IH]; cbn [map existsb]; [reflexivity|].
+    rewrite path_eqb_app, IH. reflexivity.
+  Qed.
+
+  Definition walked_map (f : path -> path) (w : walked) : walked :=
+    match w with WPath q => WPath (f q) | WMissing => WMissing | WEscape => WEscape end.
+
+  Lemma walk_relocate pre fs cur segs :
+    walk fs cur segs <> WEscape ->
+    walk (relocate pre fs) (pre ++ cur) segs = walked_map (app pre) (walk fs cur segs).
+  Proof.
+    revert cur. induction segs as [|sg r IH]; intros cur; cbn [walk walked_map]; [reflexivity|].
+    destruct (String.eqb sg "..").
+    - destruct cur as [|x c]; [congruence|]. intros H.
+      destruct (pre ++ x :: c) as [|y t] eqn:E; [destruct pre; discriminate|]. rewrite <- E.
+      rewrite removelast_app by discriminate. apply IH. assumption.
+    - destruct r as [|sg2 r2].
+      + intros _. cbn [walked_map]. rewrite app_assoc. reflexivity.
+      + rewrite <- app_assoc, is_dir_relocate. destruct (is_dir fs (cur ++ [sg])).
+        * intros H. apply IH. assumption.
+        * reflexivity.
+  Qed.
+
+  Lemma fs_incs_relocate {A} pre fs p stack (f g : path -> result A) l :
+    p <> [] ->
+    (forall q, f q <> Err Unsupported -> g (pre ++ q) = f q) ->
+    fs_incs fs p stack f l <> Err Unsupported ->
+    fs_incs (relocate pre fs) (pre ++ p) (map (app pre) stack) g l = fs_incs fs p stack f l.
+  Proof.
+    intros Hp Hfg. induction l as [|rel0 r IH]; cbn [fs_incs]; [reflexivity|].
+    unfold resolve_include. rewrite removelast_app by assumption. intros H.
+    rewrite walk_relocate by (intros C; rewrite C in H; congruence).
+    destruct (walk fs (removelast p) (pure_segs rel0)) as [q| |]; cbn [walked_map]; try reflexivity.
+    rewrite fs_lookup_relocate. destruct (fs_lookup q fs); [|reflexivity].
+    rewrite path_eqb_app, mem_path_relocate.
+    destruct (path_eqb q p || mem_path q stack); [reflexivity|].
+    destruct (f q) as [a|e] eqn:R; cbn [bind] in *.
+    - rewrite Hfg by (rewrite R; discriminate). rewrite R. cbn [bind].
+      rewrite IH; [reflexivity|].
+      intros C. rewrite C in H. cbn [bind] in H. congruence.
+    - rewrite Hfg by (rewrite R; intros C; apply H; injection C as ->; reflexivity).
+      rewrite R. reflexivity.
+  Qed.
+
+  Theorem fs_flatten_relocate pre fs fuel stack p :
+    (forall q, In q (fs_paths fs) -> q <> []) ->
+    fs_flatten fuel fs stack p <> Err Unsupported ->
+    fs_flatten fuel (relocate pre fs) (map (app pre) stack) (pre ++ p) = fs_flatten fuel fs stack p.
+  Proof.
+    intros Hne. revert stack p. induction fuel as [|k IH]; intros stack p; cbn [fs_flatten];
+      [reflexivity|].
+    rewrite fs_lookup_relocate.
+    destruct (fs_lookup p fs) as [[incs opts macs stmts]|] eqn:L; [|reflexivity].
+    intros H.
+    rewrite (@fs_incs_relocate _ pre fs p stack (fs_flatten k fs (stack ++ [p]))).
+    - reflexivity.
+    - apply Hne. eapply fs_lookup_In, L.
+    - intros q Hq.
+      change (map (app pre) stack ++ [pre ++ p]) with (map (app pre) stack ++ map (app pre) [p]).
+      rewrite <- map_app. apply IH. assumption.
+    - intros C. rewrite C in H. apply H. reflexivity.
+  Qed.
+
+  Lemma relocate_length pre fs : length (relocate pre fs) = length fs.
+  Proof. apply map_length. Qed.
+
+  Theorem fs_parse_recipe_relocate pre fs main :
+    (forall q, In q (fs_paths fs) -> q <> []) ->
+    fs_parse_recipe fs main <> Err Unsupported ->
+    fs_parse_recipe (relocate pre fs) (pre ++ main) = fs_parse_recipe fs main.
+  Proof.
+    intros Hne H. unfold fs_parse_recipe, fs_fuel in *. rewrite relocate_length.
+    pose proof (@fs_flatten_relocate pre fs (S (length fs)) [] main Hne) as R.
+    cbn [map] in R.
+    assert (fs_flatten (S (length fs)) fs [] main <> Err Unsupported) as N.
+    { intros C. rewrite C in H. apply H. reflexivity. }
+    specialize (R N). unfold bind at 1. unfold bind at 2.
+    destruct R. reflexivity.
+  Qed.
+End FsP.
+
+(* ================================================================== the `include:` string *)
+Section IncludeStringP.
+  Local Open Scope string_scope.
+
+  Lemma append_assoc_s (a b c : string) : (a ++ b) ++ c = a ++ b ++ c.
+  Proof. induction a as [|x a IH]; cbn [append]; [reflexivity|]. rewrite IH. reflexivity. Qed.
+
+  Lemma split_commas_nonnil s : split_commas s <> [].
+  Proof.
+    destruct s as [|c r]; cbn [split_commas]; [discriminate|].
+    destruct (is_comma c); [discriminate|]. destruct (split_commas r); discriminate.
+  Qed.
+
+  Lemma split_commas_no_comma s : no_comma s = true -> split_commas s = [s].
+  Proof.
+    induction s as [|c r IH]; cbn [no_comma split_commas]; [reflexivity|].
+    rewrite andb_true_iff, negb_true_iff. intros [-> H]. rewrite (IH H). reflexivity.
+  Qed.
+
+  Lemma split_commas_app a b :
+    no_comma a = true -> split_commas (a ++ String "," b) = a :: split_commas b.
+  Proof.
+    induction a as [|c r IH]; cbn [no_comma append split_commas].
+    - intros _. reflexivity.
+    - rewrite andb_true_iff, negb_true_iff. intros [-> H]. rewrite (IH H). reflexivity.
+  Qed.
+
+  Lemma no_comma_app a b : no_comma (a ++ b) = no_comma a && no_comma b.
+  Proof.
+    induction a as [|c r IH]; cbn [append no_comma]; [reflexivity|].
+    rewrite IH, andb_assoc. reflexivity.
+  Qed.
+
+  Lemma all_ws_no_comma s : all_ws s = true -> no_comma s = true.
+  Proof.
+    induction s as [|c r IH]; cbn [all_ws no_comma]; [reflexivity|].
+    rewrite andb_true_iff. intros [Hc H]. rewrite (IH H), andb_true_r.
+    unfold is_comma. destruct (Ascii.eqb c ",") eqn:E; [|reflexivity].
+    apply Ascii.eqb_eq in E. subst c. discriminate Hc.
+  Qed.
+
+  Lemma lstrip_ws_app l x : all_ws l = true -> lstrip (l ++ x) = lstrip x.
+  Proof.
+    induction l as [|c r IH]; cbn [all_ws append lstrip]; [reflexivity|].
+    rewrite andb_true_iff. intros [-> H]. apply IH, H.
+  Qed.
+
+  Lemma rstrip_ws r : all_ws r = true -> rstrip r = "".
+  Proof.
+    induction r as [|c r IH]; cbn [all_ws rstrip]; [reflexivity|].
+    rewrite andb_true_iff. intros [-> H]. rewrite (IH H). reflexivity.
+  Qed.
+
+  Lemma rstrip_app_ws x r : all_ws r = true -> rstrip (x ++ r) = rstrip x.
+  Proof.
+    intros H. induction x as [|c x IH]; cbn [append rstrip]; [apply rstrip_ws, H|].
+    rewrite IH. reflexivity.
+  Qed.
+
+  (* white space around a name is removed, the name itself is kept *)
+  Lemma strip_padded l n r :
+    all_ws l = true -> all_ws r = true -> clean_name n -> strip (l ++ n ++ r) = n.
+  Proof.
+    intros Hl Hr [c [n' [-> [Hc [Hn _]]]]]. unfold strip. rewrite lstrip_ws_app by assumption.
+    cbn [append lstrip]. rewrite Hc.
+    change (String c (n' ++ r)) with (String c n' ++ r). rewrite rstrip_app_ws by assumption.
+    exact Hn.
+  Qed.
+
+  Lemma strip_blank l r : all_ws l = true -> all_ws r = true -> strip (l ++ "" ++ r) = "".
+  Proof.
+    intros Hl Hr. unfold strip. rewrite lstrip_ws_app by assumption. cbn [append].
+    assert (forall s, all_ws s = true -> lstrip s = "") as L.
+    { induction s as [|c s IH]; cbn [all_ws lstrip]; [reflexivity|].
+      rewrite andb_true_iff. intros [-> H]. apply IH, H. }
+    rewrite (L r Hr). reflexivity.
+  Qed.
+
+  Definition item_ok (it : string * string * string) : Prop :=
+    let '(l, n, r) := it in all_ws l = true /\ all_ws r = true /\ (n = "" \/ clean_name n).
+
+  Lemma item_no_comma l n r : item_ok (l, n, r) -> no_comma (l ++ n ++ r) = true.
+  Proof.
+    intros [Hl [Hr Hn]]. rewrite !no_comma_app, (all_ws_no_comma _ Hl), (all_ws_no_comma _ Hr).
+    destruct Hn as [->|[c [n' [-> [_ [_ H]]]]]]; [reflexivity|]. rewrite H. reflexivity.
+  Qed.
+
+  Lemma item_strip l n r : item_ok (l, n, r) -> strip (l ++ n ++ r) = n.
+  Proof.
+    intros [Hl [Hr [->|Hn]]]; [apply strip_blank; assumption|apply strip_padded; assumption].
+  Qed.
+
+  Lemma clean_nonempty n : clean_name n -> nonempty n = true.
+  Proof. intros [c [r [-> _]]]. reflexivity. Qed.
+
+  (* the written include string gives back exactly the names written in it, in order;
+     empty items (", ,", a trailing comma, the empty string) give nothing *)
+  Theorem split_includes_join items :
+    Forall item_ok items ->
+    split_includes (join_includes items) = filter nonempty (map (fun it => snd (fst it)) items).
+  Proof.
+    unfold split_includes. induction items as [|[[l n] r] rest IH]; intros H.
+    - reflexivity.
+    - inversion H as [|x y Hit Hrest]; subst.
+      destruct rest as [|it2 rest'].
+      + cbn [join_includes map fst snd]. rewrite split_commas_no_comma by (apply item_no_comma, Hit).
+        cbn [map]. rewrite (item_strip Hit). reflexivity.
+      + change (join_includes ((l, n, r) :: it2 :: rest'))
+          with (l ++ n ++ r ++ String "," (join_includes (it2 :: rest'))).
+        replace (l ++ n ++ r ++ String "," (join_includes (it2 :: rest')))
+          with ((l ++ n ++ r) ++ String "," (join_includes (it2 :: rest'))).
+        2:{ rewrite !append_assoc_s. reflexivity. }
+        rewrite split_commas_app by (apply item_no_comma, Hit).
+        cbn [map filter fst snd]. rewrite (item_strip Hit), (IH Hrest). reflexivity.
+  Qed.
+
+  (* no include key / an empty string: nothing is included *)
+  Lemma split_includes_empty : split_includes "" = [].
+  Proof. reflexivity. Qed.
+End IncludeStringP.
